@@ -91,9 +91,14 @@ def run(ctx):
     _calibrate(ctx)
     thm = ("C14.dest_old_or_new_at_every_prefix / failure_leaves_dst / failure_removes_tmp / commit_result / "
            "close_commit_idempotent are about Safe.writeFile and Safe.File.*; implementation != model on this input")
-    ctx.diff(area="api", driver="drv_c14", n={"quick": 6000, "thorough": 300000}, stateful=True, theorem=thm,
+    ctx.impl_oracle("names", 1, label="destination names: bare/relative, trailing separator, unclean, 255/256 bytes, "
+                    "empty, '.', '/', missing directory — through WriteFile and through Create/Commit", timeout=200)
+    ctx.impl_oracle("race", {"quick": 40, "thorough": 1500}, label="two writers on one destination (concurrent WriteFile; two "
+                    "interleaved safe.File handles): final content is one writer's, complete; reader sees old/A/B only",
+                    timeout=300)
+    ctx.diff(area="api", driver="drv_c14", n={"quick": 6000, "thorough": 300000}, stateful=True, theorem=thm, timeout=300,
              what="in-process history of safe.File; output = result code, destination state, temporary file state")
-    ctx.diff(area="wf", driver="drv_c14", n={"quick": 320, "thorough": 14000}, theorem=thm,
+    ctx.diff(area="wf", driver="drv_c14", n={"quick": 320, "thorough": 14000}, theorem=thm, timeout=300,
              what="in-process WriteFileWithMode; mid = temporary file size seen from the callback (bufio flush points)")
     # ---- strace streams
     probe = "unavailable: strace not found"
@@ -110,6 +115,9 @@ def run(ctx):
         ctx.diff(area="trace", driver="drv_c14", n={"quick": 1, "thorough": 1}, shards=shards, theorem=thm, timeout=1500,
                  what="child process under strace: seq = system calls touching the destination directory (temporary "
                       "name abstracted), fault = strace inject error, kill = SIGKILL on entry to the j-th call of a kind")
+        ctx.impl_oracle("compound", 1, label="strace, two faults in one run: {callback error, panic, write, rename} x "
+                        "{close, unlink of the cleanup path}; the primary error is returned, destination untouched, "
+                        "no rename", timeout=600)
         ctx.extra["trace_enumeration"] = {
             "exhaustive": True,
             "runs": ctx.evals - before,
@@ -125,6 +133,9 @@ def run(ctx):
                          "(split over %d shards); each run is self-validating (the trace must show the injection on the "
                          "intended call, else the run is repeated)" % shards)
     else:
+        ctx.impl_oracle("compound", 1, label="strace, two faults in one run: {callback error, panic, write, rename} x "
+                        "{close, unlink of the cleanup path}; the primary error is returned, destination untouched, "
+                        "no rename", timeout=600)
         ctx.extra["trace_enumeration"] = {"exhaustive": False, "runs": 0, "what": "strace not usable here: " + probe}
         ctx.assumptions.append("strace was not usable in this run (%s): the action sequence, write/close error injection "
                                "and kill points were NOT observed; only the in-process streams api and wf ran" % probe)
